@@ -44,22 +44,28 @@ def delim(c, **kw):
     return T("delim", c, c, **kw)
 
 
+def _i32(text):
+    # (integers outside the i32 range are promised their value to single precision only)
+    v = int(text)
+    return v if -(2 ** 31) <= v <= 2 ** 31 - 1 else None
+
+
 def number(text, **kw):
     v = float(text)
     is_int = all(ch in "+-0123456789" for ch in text)
-    return T("num", None, text, num=v, int=int(text) if is_int else None, sign=text[0] in "+-", **kw)
+    return T("num", None, text, num=v, int=_i32(text) if is_int else None, sign=text[0] in "+-", **kw)
 
 
 def dimension(text, unit, **kw):
     v = float(text)
     is_int = all(ch in "+-0123456789" for ch in text)
-    return T("dim", None, text + unit, num=v, int=int(text) if is_int else None, unit=unit, sign=text[0] in "+-", **kw)
+    return T("dim", None, text + unit, num=v, int=_i32(text) if is_int else None, unit=unit, sign=text[0] in "+-", **kw)
 
 
 def percentage(text, **kw):
     v = float(text)
     is_int = all(ch in "+-0123456789" for ch in text)
-    return T("pct", None, text + "%", num=v / 100.0, int=int(text) if is_int else None, sign=text[0] in "+-", **kw)
+    return T("pct", None, text + "%", num=v / 100.0, int=_i32(text) if is_int else None, sign=text[0] in "+-", **kw)
 
 
 def string(value, quote='"', **kw):
@@ -85,8 +91,10 @@ UNITS = ["px", "em", "rem", "vh", "vw", "deg", "s", "ms", "fr", "RPX", "rpxx", "
 PSEUDO = ["hover", "first-child", "before", "active", "root"]
 PROPS = ["color", "margin", "width", "z-index", "font", "background", "--x", "--my-var", "transform", "grid-template-columns", "content", "line-height"]
 INT_TEXTS = ["0", "1", "2", "7", "10", "100", "255", "999", "1000", "65535", "65536", "99999", "100000", "999999", "1000000", "9999999", "16777215", "16777216", "16777217", "2147483647", "-1", "-2147483648", "+5", "123456", "1234567", "12345678", "-1234567", "-9999999", "-16777217", "+33554433", "99999999", "-123456789"]
+# integers outside the i32 range: not promised exact, but their value survives to single precision
+BIG_TEXTS = ["2147483648", "-2147483649", "4294967296", "99999999999", "1630052410030989218764", "-99999999999999", "12345678901234567890", "+3000000000"]
 FLOAT_TEXTS = ["0.5", ".5", "1.5", "0.25", "3.14159", "0.1234567", "12.345678", "1e3", "1.5e-3", "2E2", "0.000001", "100.5", "-0.5", "+.75", "0.1", "0.333333", "99.9999", "1234.5678", "0.0", "-0.0"]
-RPX_TEXTS = ["0", "1", "2", "7.5", "10", "75", "100", "375", "750", "1.5", "0.5", ".5", "-10", "+20", "1e2", "33.3333", "12345", "0.01", "999999", "7", "3", "1234567", "-9999999", "16777217", "30000000", "2147483647", "-2147483648", "1e9"]
+RPX_TEXTS = ["0", "1", "2", "7.5", "10", "75", "100", "375", "750", "1.5", "0.5", ".5", "-10", "+20", "1e2", "33.3333", "12345", "0.01", "999999", "7", "3", "1234567", "-9999999", "16777217", "30000000", "2147483647", "-2147483648", "1e9", "1e37", "-3e38", "2.5e37", "99999999999"]
 
 
 class Gen:
@@ -242,6 +250,9 @@ class Gen:
             return dimension(self.pick(RPX_TEXTS), "rpx")
         if r < 0.5:
             return number(self.pick(INT_TEXTS))
+        if r < 0.515:
+            text = self.pick(BIG_TEXTS)
+            return number(text) if self.chance(0.5) else dimension(text, "px")
         if r < 0.62:
             return number(self.pick(FLOAT_TEXTS))
         if r < 0.85:
@@ -358,7 +369,7 @@ class Gen:
     def unicode_range(self):
         gid = ("urange", self.next_group)
         self.next_group += 1
-        form = self.pick(["U+26", "U+0-7F", "U+0025-00FF", "U+4??", "u+1F600"])
+        form = self.pick(["U+26", "U+0-7F", "U+0025-00FF", "U+4??", "u+1F600", "U+1E00-1EFF", "U+0E01-0E5B", "U+2E80-2EFF", "U+1E3", "U+00e9", "U+1F600-1F64F", "U+E000-F8FF", "u+0-10FFFF", "U+1e9", "U+2e5-2e9", "U+??????", "U+1e??"])
         # spelt raw; cssparser tokenises it as ident/number/dimension pieces (annotated as one verbatim group)
         t = T("raw-urange", form, form, group=gid)
         return [t]
@@ -380,6 +391,9 @@ class Gen:
 
     # --- rules
     def qualified(self, depth):
+        if self.chance(0.01):
+            # `: host` (whitespace after the colon) is not the `:host` pseudo-class: an ordinary (invalid) rule
+            return {"t": "rule", "sel": [simple(":", ctx="sel"), ident("host", ctx="sel", ws=True, wsmean="must")], "decls": self.declarations()}
         return {"t": "rule", "sel": self.selector_list(depth), "decls": self.declarations()}
 
     def host_rule(self):
@@ -388,7 +402,7 @@ class Gen:
         sp = self.pick(["host"] * 8 + ["HOST", "Host"])
         if r < 0.7:
             return {"t": "host", "decls": self.declarations(), "combo": None, "host_spelling": sp}
-        combo = self.pick(["func", "class", "descendant", "list", "attr", "attr-desc", "pseudo", "id"])
+        combo = self.pick(["func", "class", "descendant", "list", "attr", "attr-desc", "pseudo", "id", "pre-list", "pre-class", "pre-star", "pre-desc", "in-is", "pre-list-2"])
         return {"t": "host", "decls": self.declarations(), "combo": combo, "host_spelling": sp}
 
     def at_rule(self, depth, sel_depth):
@@ -480,7 +494,7 @@ class Gen:
             conds.append(("supports", None))
         media = None
         if self.chance(0.45):
-            media = self.pick(["screen", "paren", "screen-and-paren", "all", "all-and-paren", "not-all", "only-screen-and-paren", "list", "paren-and-paren"])
+            media = self.pick(["screen", "paren", "screen-and-paren", "all", "all-and-paren", "not-all", "only-screen-and-paren", "list", "paren-and-paren", "general-enclosed", "screen-and-general"])
         x = {"t": "import", "form": form, "path": path, "conds": conds, "media": media}
         if self.chance(0.12):
             # function names are ASCII case-insensitive
@@ -496,6 +510,12 @@ class Gen:
         out = []
         for _ in range(self.r.randrange(1 if top else 0, 5 if top else 4)):
             r = self.r.random()
+            if not top and getattr(self, "allow_imports", False) and self.chance(0.05):
+                # an import nested in a conditional group rule: rewritten where it stands
+                out.append(self.import_rule())
+            if top and getattr(self, "allow_cdo", False) and self.chance(0.04):
+                # `<!--` and `-->` between top-level rules are ignored by CSS
+                out.append({"t": "cdo", "which": self.pick(["cdo", "cdc"])})
             if depth > 0 and r < 0.3:
                 out.append(self.at_rule(depth, sel_depth))
             elif allow_host and r < 0.42:
@@ -506,6 +526,8 @@ class Gen:
 
     def stylesheet(self, imports=True):
         rules = []
+        self.allow_imports = imports
+        self.allow_cdo = True
         if imports:
             for _ in range(self.r.randrange(0, 3)):
                 rules.append(self.import_rule())
